@@ -86,7 +86,7 @@ CHECKS = {
     ref="DESIGN.md §4 C13"),
  "C02": dict(
     level="exploration",
-    technique="rapid-generated accepted configurations compiled and executed against the real runtime; model-based oracle: a DI interpreter written from the documentation predicts every object graph; comparison modulo a bijection of instance serial numbers",
+    technique="rapid-generated accepted configurations compiled and executed against the real runtime; model-based oracle: a DI interpreter written from the documentation predicts every object graph; comparison modulo a bijection of instance serial numbers; hostile-local enumeration (K2) and the C01 feature lattice are executed too; a compile error of an accepted configuration is a violation",
     text="Batches of behavioural configurations (all creation methods, argument forms and positions, fields, calls, withers, receiver kinds, scopes, todo/failing dependencies) are compiled, linked with the pinned runtime and probed; every returned object must equal the predicted descriptor tree and every predicted failure must surface as an error.",
     note="Trusts the DI interpreter (written from docs, cross-validated on the unchanged tree and against 36 seeded changes), the fixture objects' self-description and the Go toolchain. Open known finding (14 keys): own-package symbols named like local variables of the generated constructor are shadowed; enumerated and reported as KNOWN-FINDING.",
     ref="DESIGN.md §4 C02"),
@@ -116,7 +116,7 @@ CHECKS = {
     ref="DESIGN.md §4 C07"),
  "C16": dict(
     level="exploration",
-    technique="metamorphic relation across the four flag combinations plus reference-model verdicts, on injected-defect mixes (all 32 class subsets + rapid random mixes)",
+    technique="metamorphic relation across the four flag combinations (in four spellings of the switches) plus reference-model verdicts, on injected-defect mixes (all 32 class subsets + rapid random mixes); the exhaustive subsets and configurations with 255 / 256 / 512 remaining diagnostics also through the linked binary (exit status)",
     text="Every case is run under all four flag combinations; the diagnostics under flags must be exactly the unflagged diagnostics minus the ignored classes, acceptance must follow, and accepted configurations must produce byte-identical output under every combination.",
     note="Trusts the report parser; fact sets, not wording, are compared.",
     ref="DESIGN.md §4 C16"),
@@ -128,7 +128,7 @@ CHECKS = {
     ref="DESIGN.md §4 C01"),
  "C18": dict(
     level="exploration",
-    technique="bounded-exhaustive + rapid random generation of (build, declared) version pairs against an independent strict-semver oracle; differential in-process vs linked binaries",
+    technique="bounded-exhaustive + rapid random generation of (build, declared) version pairs against an independent strict-semver oracle; differential in-process vs linked binaries (linker-injected versions with and without the v prefix and the other release variables, and versions taken from the build info)",
     text="Every pair of the 96x96 version grid, all listed non-semver builds and malformed declarations, plus random large semvers are run end to end and compared with a reference implementation of the stated rule; complete inside the grid, sampling beyond it.",
     note="Trusts the harness's own strict semver parser and the report parser; shorthand versions (1, 1.2) are outside the domain; binaries are linked with -X main.version to cover main.go.",
     ref="DESIGN.md §4 C18"),
